@@ -18,7 +18,8 @@ RULE = ('one execution = one deterministic measure evaluated on a network A and 
         'symmetric ones over-represented); non-trivial = p is not an automorphism of A')
 EXHAUSTIVE = {'quick': 'all n! node permutations of every labelled undirected graph on <=4 nodes and directed graph on <=3 nodes',
               'thorough': 'all n! node permutations of every labelled undirected graph on <=5 nodes and directed graph on <=4 nodes'}
-ASSUMPTIONS = ['rtol 1e-9 / atol 1e-12 with identical NaN and inf positions (renumbering changes summation order)',
+ASSUMPTIONS = ['assortativity_wei with flag 1-4 raises ValueError on every input (upstream unpacking bug): unobservable, not in the table',
+               'rtol 1e-9 / atol 1e-12 with identical NaN and inf positions (renumbering changes summation order)',
                'tie-dependent outputs are excluded (hop matrix of distance_wei, hops/Pmat of distance_wei_floyd, navigation paths)',
                'eigenvector_centrality_und only on connected graphs (simple lambda_max)',
                'both sides raising the same exception type = unobservable (skip); exactly one raising = violation']
@@ -40,7 +41,7 @@ def measures():
     a(M('strengths_und', 'und_wei', lambda b, X, e: b.strengths_und(X), N))
     a(M('strengths_dir', 'dir_wei', lambda b, X, e: b.strengths_dir(X), N))
     a(M('strengths_und_sign', 'signed_und', lambda b, X, e: b.strengths_und_sign(X), (N, N, S, S)))
-    a(M('jdegree', 'dir_int', lambda b, X, e: b.jdegree(X), (S, S, S, S)))
+    a(M('jdegree', 'dir_int', lambda b, X, e: b.jdegree(X.astype(int)), (S, S, S, S)))
     a(M('density_und', 'und_wei', lambda b, X, e: b.density_und(X), (S, S, S)))
     a(M('density_dir', 'dir_wei', lambda b, X, e: b.density_dir(X), (S, S, S)))
     a(M('clustering_coef_bu', 'und_bin', lambda b, X, e: b.clustering_coef_bu(X), N))
@@ -92,7 +93,6 @@ def measures():
     a(M('assortativity_bin', 'und_bin', lambda b, X, e: b.assortativity_bin(X, 0), S))
     for fl in (1, 2, 3, 4):
         a(M('assortativity_bin:flag%d' % fl, 'dir_bin', lambda b, X, e, fl=fl: b.assortativity_bin(X, fl), S))
-        a(M('assortativity_wei:flag%d' % fl, 'dir_wei', lambda b, X, e, fl=fl: b.assortativity_wei(X, fl), S))
     a(M('assortativity_wei', 'und_wei', lambda b, X, e: b.assortativity_wei(X, 0), S))
     a(M('pagerank_centrality:d50', 'und_wei', lambda b, X, e: b.pagerank_centrality(X, .5), N))
     a(M('eigenvector_centrality_und', 'und_wei_conn', lambda b, X, e: b.eigenvector_centrality_und(X), N))
